@@ -105,6 +105,10 @@ func init() {
 				directedKind = "meta"
 			} else if i%5 == 2 {
 				directed, directedKind = true, "unbounded"
+			} else if i%5 == 1 {
+				directed, directedKind = true, "overdraftTwice"
+			} else if i%5 == 3 {
+				directed, directedKind = true, "effectsCarry"
 			}
 			if c.replay != nil {
 				directed, _ = c.replay.Extra["directed"].(bool)
@@ -119,6 +123,10 @@ func init() {
 			case "unbounded":
 				// an account drawn with unbounded overdraft (its balance is not requested), then read
 				prog = g.unboundedThenBoundedProgram()
+			case "overdraftTwice":
+				prog = g.overdraftTwiceProgram()
+			case "effectsCarry":
+				prog = g.effectsCarryProgram()
 			default:
 				prog = g.Program()
 			}
@@ -300,7 +308,25 @@ func init() {
 				sc = scenarioFromInfo(c.replay)
 			} else {
 				g := NewGen(r, cfg)
-				prog := g.Program()
+				var prog *GProgram
+				switch i % 6 {
+				case 1:
+					prog = g.overdraftOriginProgram()
+					c.count("directed:overdraftOrigin")
+				case 4:
+					prog = g.twoAssetsProgram()
+					c.count("directed:twoAssets")
+				default:
+					prog = g.Program()
+				}
+				if i%3 == 0 {
+					// an account the script reads is not listed by the store at all
+					for _, a := range []string{"a", "b", "c", "users:001"} {
+						if _, ok := g.bal[a]; ok && r.Chance(1, 2) {
+							delete(g.bal, a)
+						}
+					}
+				}
 				sc = scenarioFromGen(g, prog, 0, r)
 			}
 			sc.Kind = skStatic
